@@ -39,6 +39,13 @@ type REvent struct {
 type ReaderScript struct {
 	Data   Bytes    `json:"data"`
 	Events []REvent `json:"events,omitempty"`
+	// Poll > 0: a polled source. Once the events are used up the reader
+	// answers Poll times (0, nil) in front of every read that delivers, and
+	// delivers at most Piece bytes (Piece 0: 16) per read: hundreds of empty
+	// reads in one stream, never two deliveries without some in between,
+	// which the io.Reader contract allows.
+	Poll  int `json:"poll,omitempty"`
+	Piece int `json:"piece,omitempty"`
 }
 
 type scriptReader struct {
@@ -54,15 +61,22 @@ type scriptReader struct {
 	faults    int
 	eofs      int
 	produced  []error // the fault errors returned so far
+	poll      int
+	piece     int
+	pollLeft  int
 }
 
 func newScriptReader(s ReaderScript) *scriptReader {
-	return &scriptReader{data: s.Data, events: s.Events}
+	r := &scriptReader{data: s.Data, events: s.Events, poll: s.Poll, piece: s.Piece, pollLeft: s.Poll}
+	if r.poll > 0 && r.piece <= 0 {
+		r.piece = 16
+	}
+	return r
 }
 
 func (r *scriptReader) Read(p []byte) (n int, err error) {
 	r.calls++
-	if r.calls > 4*len(r.data)+4*len(r.events)+10000 {
+	if r.calls > (4+r.poll)*len(r.data)+4*len(r.events)+10000 {
 		r.spun = true
 		r.lastErr = errSpin
 		return 0, errSpin
@@ -76,6 +90,17 @@ func (r *scriptReader) Read(p []byte) (n int, err error) {
 	want := len(p)
 	var ev REvent
 	scripted := false
+	if len(r.events) == 0 && r.poll > 0 && r.pos < len(r.data) && len(p) > 0 {
+		if r.pollLeft > 0 {
+			r.pollLeft--
+			r.lastErr = nil
+			return 0, nil
+		}
+		r.pollLeft = r.poll
+		if want > r.piece {
+			want = r.piece
+		}
+	}
 	if len(r.events) > 0 {
 		ev = r.events[0]
 		r.events = r.events[1:]
@@ -173,6 +198,10 @@ func genReaderScript(t *rapid.T, label string, data []byte, faults bool) ReaderS
 			zeros = 0
 		}
 		s.Events = append(s.Events, e)
+	}
+	if rapid.IntRange(0, 11).Draw(t, label+".polled") == 0 {
+		s.Poll = rapid.IntRange(1, 2).Draw(t, label+".poll")
+		s.Piece = rapid.SampledFrom([]int{1, 2, 3, 16, 256}).Draw(t, label+".piece")
 	}
 	return s
 }
